@@ -42,6 +42,10 @@ def process_patterned_date_time(func: Callable) -> Callable:
             if (pb := extras.get('pattern')) is not None:
                 pb.base = cast(type[DT], tp.origin)
                 tp.origin = cast(type, pb)
+                # name the generated helper after the pattern (as for
+                # `TimePattern[...]`), not only after the date/time type:
+                # two fields with different patterns must not share it
+                tp.name = repr(pb)
                 return pb.load_to_pattern(tp, extras)
 
             # Fallback to the original method
@@ -56,6 +60,10 @@ def process_patterned_date_time(func: Callable) -> Callable:
             if (pb := extras.get('pattern')) is not None:
                 pb.base = cast(type[DT], tp.origin)
                 tp.origin = cast(type, pb)
+                # name the generated helper after the pattern (as for
+                # `TimePattern[...]`), not only after the date/time type:
+                # two fields with different patterns must not share it
+                tp.name = repr(pb)
                 return pb.load_to_pattern(tp, extras)
 
             # Fallback to the original method
